@@ -19,7 +19,9 @@ TECHNIQUE = ("offline checker over API histories of BlockChain vs a from-the-def
 RULE = ("histories = headers (hash, parent, weight>0) + events (batches handed to add_headers, lock_to_index calls). "
         "Exhaustive part: every acyclic parent function on N labelled headers (parent = anchor | another header | never-"
         "delivered hash) x every delivery permutation x every batching, N<=4 (quick) / N<=5 (thorough), each also with "
-        "every single lock_to_index(k), 1<=k<=length, between two batches (N<=4, in quick for three of the five labelings and sampled for the others; sampled for N=5) and, for N<=3 (quick) / N<=4 (thorough), with every single re-delivery of one header, under hash labelings "
+        "every single lock_to_index(k), 1<=k<=length, between two batches (N<=4, in quick for three of the five labelings and sampled for the others; "
+        "sampled for N=5) and, for N<=3 (N<=4 in thorough for two labelings), with every single re-delivery of one header, "
+        "under hash labelings "
         "ascending / descending / scattered ints / 32-byte strings with several PYTHONHASHSEEDs. Sampled part: N=6..14, "
         "random positive integer weights, re-delivered headers, several locks. A history is distinct by (forest renamed "
         "by first-delivery position, delivery order, batch sizes, locks, weights when not all 1) - labelings of the same "
@@ -71,7 +73,7 @@ def plan(tier, seed):
             parts = 3
             for p in range(parts):
                 shards.append({"kind": "exh", "nmax": 4, "scheme": sch, "unk": unk, "weights": wm, "part": p, "parts": parts,
-                               "locks": "all" if ci in (0, 2, 4) else "sample", "dups": 3 if p == 0 else 0,
+                               "locks": "all" if ci in (0, 2, 4) else "sample", "dups": 3,
                                "env": {"PYTHONHASHSEED": hs}, "label": "exh4-%s-%s-%d" % (sch, unk, p)})
         for i in range(16):
             shards.append({"kind": "rand", "n": 5000, "env": {"PYTHONHASHSEED": i % 3}, "label": "rand%d" % i})
@@ -82,9 +84,12 @@ def plan(tier, seed):
                 shards.append({"kind": "exh", "nmin": 5, "nmax": 5, "scheme": sch, "unk": unk, "weights": wm, "part": p,
                                "parts": parts5, "locks": "sample", "distinct_every": 8, "env": {"PYTHONHASHSEED": hs},
                                "label": "exh5-%s-%s-%d" % (sch, unk, p)})
-        for sch, unk, wm, hs in cfgs:
-            shards.append({"kind": "exh", "nmax": 4, "scheme": sch, "unk": unk, "weights": wm, "part": 0, "parts": 1,
-                           "locks": "all", "dups": 4, "env": {"PYTHONHASHSEED": hs}, "label": "exh4-%s-%s" % (sch, unk)})
+        for ci, (sch, unk, wm, hs) in enumerate(cfgs):
+            parts = 8 if ci in (0, 3) else 2
+            for p in range(parts):
+                shards.append({"kind": "exh", "nmax": 4, "scheme": sch, "unk": unk, "weights": wm, "part": p, "parts": parts,
+                               "locks": "all", "dups": 4 if ci in (0, 3) else 3, "env": {"PYTHONHASHSEED": hs},
+                               "label": "exh4-%s-%s-%d" % (sch, unk, p)})
         for i in range(32):
             shards.append({"kind": "rand", "n": 100000, "env": {"PYTHONHASHSEED": i % 4}, "label": "rand%d" % i})
     return shards
